@@ -8,6 +8,7 @@ import (
 // genC03: operator table of ResolvePackageNameVersionPin, the satisfies switch,
 // endsWithReleaseStr.
 func genC03() {
+	genC03Ladders()
 	const rel = "pkg/apk/apk/version.go"
 	g := newGen("C03Version", "From Apko Require Import Base.Prelude Base.Regex.\nOpen Scope Z_scope.")
 	dep := iotaBlock(rel, "versionAny")
